@@ -46,7 +46,7 @@ META = {
                 note="'marked' accepts removal with the socket closed. Generic TLS protocol errors (certificate failure) are outside the property."),
     "C11": dict(cat="model_checking", eng="E2 BFS over FakeNet", ref="3 (TCP group)",
                 tech="explicit-state BFS over connect/handshake-pending/handshake-EOF/protocol-error/reset/receive-error/replace/port-taken/reopen/close event histories with socket-table invariant",
-                text="BFS to depth 5/7 over server and client event histories (plain and TLS); after Server.close()/reopen() every socket it created or accepted must be closed; a client never leaves an earlier socket open.",
+                text="BFS to depth 5/7 over server and client event histories (plain and TLS); after Server.close()/reopen() every socket it created or accepted must be closed; a client never leaves an earlier socket open (nor any socket after close() or its ClientDoer's exit).",
                 note="Openness is observed on the fake sockets (explicit close() calls), never through garbage collection."),
     "C12": dict(cat="model_checking", eng="E1 full tree over FakeNet + virtual tyme", ref="3 (C12)",
                 tech="complete enumeration of all client activity timings per tick (3^9 and 2^13/2^16; request trickling, response draining, body of an HTTP/1.1 close request trickling) against a statement-derived idle rule",
